@@ -12,6 +12,7 @@ CONSTANTS
   MaxReRel = 2
   Slacks = {1, 2}
   Listers = 1
+  Retries = 1
   FixedKinds = {"conncap", "maplimit", "maplive", "codequota", "mapquota"}
   WithRelease = TRUE
   Emit = FALSE
